@@ -8,6 +8,45 @@ ESCAPES = {"a": 7, "b": 8, "f": 12, "n": 10, "r": 13, "t": 9, "v": 11, "\\": 92,
 STRING_ONLY = {"u": "hex(4)", "U": "hex(8)"}
 
 
+def _split_args(txt):
+    out, depth, cur = [], 0, ""
+    for ch in txt:
+        if ch in "([{":
+            depth += 1
+        elif ch in ")]}":
+            depth -= 1
+        if ch == "," and depth == 0:
+            out.append(cur.strip())
+            cur = ""
+        else:
+            cur += ch
+    if cur.strip():
+        out.append(cur.strip())
+    return out
+
+
+def norm_payload(F, e, depth=0):
+    """a token payload expression with (a) the `?` operator and error-mapping combinators read as "the Ok payload of" and (b) calls of private
+    tokenizer helpers replaced by what the helper returns (its return expression with the arguments substituted)"""
+    import mirq as _m
+    for _ in range(6):
+        e2 = re.sub(r"Try::branch\((.*)\)\.Continue\.0", r"\1.Ok.0", e)
+        e2 = re.sub(r"Result::map_err\((.*), closure#\d+(?:\{[^{}]*\})?\)\.Ok\.0", r"\1.Ok.0", e2)
+        if e2 == e:
+            break
+        e = e2
+    m = re.match(r"^StringTokenizer::(\w+)\((.*)\)\.Ok\.0$", e)
+    if m and depth < 3:
+        hb = [b for b in F.bodies.values() if b.path == TK + m.group(1)]
+        if hb and str(hb[0].d.get("vis", "")).startswith("Restricted"):
+            args = _split_args(m.group(2))
+            ret = _m.expr_of(_m.BodyQ(hb[0]), {"move": {"l": 0}})
+            ret = re.sub(r"\bp(\d+)\b", lambda mm: "(%s)" % args[int(mm.group(1)) - 1] if int(mm.group(1)) - 1 < len(args) else mm.group(0), ret)
+            ret = re.sub(r"\((p\d+|phi\([^()]*(?:\([^()]*\)[^()]*)*\)|\d+)\)", r"\1", ret)
+            return norm_payload(F, ret + ".Ok.0", depth + 1)
+    return e
+
+
 class ScanPolicy(semtables.LogicPolicy):
     """scanner calls yield fresh unknown characters; the root's own loop is cut after one iteration (the state at the cut shows what
     one step of the literal loop appended); error construction ends a path"""
@@ -27,7 +66,10 @@ class ScanPolicy(semtables.LogicPolicy):
             self.done.append(st)
 
     def inline(self, path, body):
-        return False
+        # private helpers of the tokenizer other than the hex-escape reader (its own table is R13.5) are part of the scanner that calls them
+        return path.startswith(TK) and "::{closure" not in path and not path.endswith(("extract_hex_val", "::" + self.root)) and \
+            str(body.d.get("vis", "")).startswith("Restricted") and not re.search(r"::(collect_next_token|parse_\w+_literal|parse_number_or_token|parse_keywords_or_ident)$", path) \
+            or "::{closure" in path
 
     def stub(self, interp, st, path, c, args, t, caller):
         m = re.search(r"string_scanner::StringScanner::<'l>::(next|peek|location)$", path)
@@ -102,7 +144,7 @@ def run(chk, tier):
     chk.floor("R13.2", "tokenizer bodies", len(tk), 10)
     num = F.body("rscel::compiler::string_tokenizer::StringTokenizer::<'l>::parse_number_or_token")
     cal = {}
-    for b in common.with_closures(F, num):
+    for b in common.with_private_callees(F, num):
         cal.update(common.callees_g(b))
         for (ck, fr, to), n in common.casts_of(b).items():
             if (fr, to) in common.LOSSY_INT:
@@ -124,7 +166,7 @@ def run(chk, tier):
         if var_ not in LIT_RX:
             continue
         seen_lit.add(var_)
-        ex_ = [_mq.expr_of(qn_, o_) for o_ in s_["rv"]["ops"]]
+        ex_ = [norm_payload(F, _mq.expr_of(qn_, o_)) for o_ in s_["rv"]["ops"]]
         if len(ex_) == 1 and re.match(LIT_RX[var_], ex_[0]):
             chk.ok("R13.2", "token payload|%s" % var_, ex_[0][:100])
         else:
@@ -175,7 +217,8 @@ def run(chk, tier):
             if ch.startswith("<other>"):
                 # octal digits are handled under a range test; everything else must be rejected
                 vals = set(got)
-                selfpush = [g for g in vals if "next#1.Some.0" in g and not g.startswith("error")]
+                # "denotes itself" = the escape character is appended as it is (an octal escape COMPUTES a character from its three digits)
+                selfpush = [g for g in vals if "next#1.Some.0" in g and not g.startswith("error") and not re.search(r"next#[2-9]", g)]
                 if selfpush and "Le(next#1.Some.0" not in ch and "=1" not in ch.split("|", 1)[-1].split(";")[-1]:
                     chk.bad("R13.4", "%s|unknown escape" % root, "an escape character outside the table is accepted and denotes itself (`'a\\qb'` spells \"aqb\"): malformed escapes must be rejected with a syntax error" , "rscel/src/compiler/string_tokenizer.rs (%s)" % root)
                 elif selfpush:
@@ -217,7 +260,7 @@ def run(chk, tier):
     oks = []
     for st, r in outs:
         scans = [e for e in st.trace if e[0] == "scan" and e[2] == "next"]
-        digits = [(c[1], c[2]) for c in st.cond if c[0] in ("eq", "ne") and "is_digit" in c[1]]
+        digits = [(c[1], c[2]) for c in st.cond if c[0] in ("eq", "ne") and re.search(r"is_digit\(.*, 16\)|is_ascii_hexdigit\(", c[1])]
         if r[0] == "adt" and r[2] == "Ok":
             oks.append((len(scans), digits, [c for c in st.cond if c[0] == "variant" and "from_u32" in str(c[3])]))
     good = bool(oks) and all(n == 2 and len(d) == 2 and all((v == 1 or v == (0,) or list(v) == [0]) if not isinstance(v, int) else v == 1 for _, v in d) and len(fu) == 1 and fu[0][2] == "Some" for n, d, fu in oks)
@@ -258,7 +301,14 @@ def run(chk, tier):
         chk.ok("R13.6", "hexadecimal digits are consumed after 0x")
     else:
         chk.bad("R13.6", "hexadecimal digits are consumed after 0x", "the number scanner never consumes the digits a-f / A-F in its hexadecimal state: `0xff` is not an integer literal (it stops after `0x`)", num.file)
-    radix = [mirq.expr_of(qn, t["args"][1]) for i, t, pth in qn.call_sites(r"impl u64>::from_str_radix$")]
+    # the radix handed to from_str_radix, read off the (helper-normalised) payloads of the integer tokens
+    radix = []
+    for i_, adt_, var_, s_ in qn.aggregates(adt_suffix="tokens::Token"):
+        if var_ in ("IntLit", "UIntLit"):
+            for o_ in s_["rv"]["ops"]:
+                m_ = re.search(r"u64::from_str_radix\(.*, ((?:phi\([^()]*\)|\w+))\)\.Ok\.0", norm_payload(F, mirq.expr_of(qn, o_)))
+                if m_:
+                    radix.append(m_.group(1))
     if radix and all(re.search(r"phi\(.*10.*16|16.*10|^_\d+$|base", r_) or r_ not in ("10",) for r_ in radix):
         chk.ok("R13.6", "integers are converted in the scanned base", radix)
     else:
